@@ -198,12 +198,35 @@ func (p *projector) walk(n *html.Node, chain string, inPh, hid, inTbl bool) {
 	}
 }
 
+// srcsetCandidates parses a srcset value as the HTML standard does: candidates are
+// separated by commas, but a URL may contain commas itself - only a comma at the end of
+// the URL token, or one that follows the descriptors, separates.
 func srcsetCandidates(v string) []string {
 	var out []string
-	for _, part := range strings.Split(v, ",") {
-		f := strings.Fields(part)
-		if len(f) > 0 {
-			out = append(out, f[0])
+	i, n := 0, len(v)
+	isSpace := func(c byte) bool { return c == ' ' || c == '\t' || c == '\n' || c == '\r' || c == '\f' }
+	for i < n {
+		for i < n && (isSpace(v[i]) || v[i] == ',') {
+			i++
+		}
+		if i >= n {
+			break
+		}
+		start := i
+		for i < n && !isSpace(v[i]) {
+			i++
+		}
+		url := v[start:i]
+		if strings.HasSuffix(url, ",") {
+			url = strings.TrimRight(url, ",")
+		} else {
+			// descriptors up to the next comma
+			for i < n && v[i] != ',' {
+				i++
+			}
+		}
+		if url != "" {
+			out = append(out, url)
 		}
 	}
 	return out
